@@ -89,9 +89,10 @@ func (t *brokerPublishTransactionBase) resend(pktx interface{}) error {
 	switch pkt := pktx.(type) {
 	case snPkts.Packet:
 		// The packet is already queued for a sleeping client, do not queue
-		// it again.
+		// it again. The client cannot answer before it wakes up, its sleep
+		// must not use up the retries.
 		if t.handler.state.Get() == util.StateAsleep {
-			return nil
+			return transactions.ErrRetryPostponed
 		}
 		// Set DUP if applicable.
 		if dupPkt, ok := pkt.(snPkts.PacketWithDUP); ok {
